@@ -1356,6 +1356,37 @@ def check_nest(cfg, rec: Rec, a=None):
         rec.violation(f'C17|nested-correlation|raises={exc_name(e)},kind={cfg["kind"]}', f'{cfg}: {exc_name(e)}: {e}', case_of(),
                       observed=repr(e))
         return
+    _judge_nest(cfg, rec, corr, mu_m, top, name_of, case_of, '')
+    if cfg['kind'] == 'float':
+        return
+    # the same object is asked again with a dictionary that holds the same names and OTHER values (the estimates of another
+    # model), and then once more as the first time: every answer follows the values of its own request
+    names_all = [f'mu_{chr(ord("z") - i)}' for i in range(len(nests_pos))]
+    mu_2 = [menu[(i + 2) % len(menu)] + 0.25 * (i + 1) for i in range(len(nests_pos))]
+    par_2 = {nm: (v / 2.0 if cfg['kind'] == 'expr' else v) for nm, v in zip(names_all, mu_2)}
+    for tag, kw, mus in ((',second-request-on-the-same-object-with-other-values', dict(kwargs, parameters=par_2), mu_2),
+                         (',first-request-repeated-after-another', kwargs, mu_m)):
+        if tag.startswith(',first') and cfg['pdict'] != 'override':
+            # a request that does not name every nest parameter reads the values the parameter objects hold now; the library
+            # writes the values of a dictionary into them (change_init_values), so what such a request means after another one
+            # is not fixed by the statement: not compared
+            rec.count('skipped_repeated_request_that_does_not_name_every_parameter')
+            continue
+        try:
+            corr_k = obj.correlation(**kw)
+        except RuntimeError:
+            rec.retire = True
+            raise
+        except Exception as e:  # noqa
+            rec.violation(f'C17|nested-correlation|raises={exc_name(e)},kind={cfg["kind"]}{tag}', f'{cfg}: {exc_name(e)}: {e}',
+                          case_of(), observed=repr(e))
+            return
+        _judge_nest(cfg, rec, corr_k, mus, top, name_of, case_of, tag)
+
+
+def _judge_nest(cfg, rec, corr, mu_m, top, name_of, case_of, tag):
+    labels = cfg['labels']
+    nests_pos = cfg['nests']
     nest_of = {}
     for i, members in enumerate(nests_pos):
         for j in members:
@@ -1365,9 +1396,9 @@ def check_nest(cfg, rec: Rec, a=None):
     # of nests already varies in the canonical structures, whose keys stay as they were)
     listing_tag = ',listing=members-reordered' if listing == 'members-reordered' else ''
     ok_labels = sorted(map(str, corr.index)) == sorted(name_of.values()) and list(corr.index) == list(corr.columns)
-    rec.case(('nest-labels', str(cfg)), list(map(str, corr.index)), outcome='nest:labels')
+    rec.case(('nest-labels', str(cfg), tag), list(map(str, corr.index)), outcome='nest:labels')
     if not ok_labels:
-        rec.violation(f'C17|nested-correlation|labels,names={cfg["names"]}',
+        rec.violation(f'C17|nested-correlation|labels,names={cfg["names"]}{tag}',
                       f'{cfg}: index {list(corr.index)} columns {list(corr.columns)}', case_of(),
                       expected=sorted(name_of.values()), observed=list(map(str, corr.index)))
         return
@@ -1381,12 +1412,12 @@ def check_nest(cfg, rec: Rec, a=None):
             e, clause = 1.0 - (top * top) / (m * m), 'within-nest'
         else:
             e, clause = 0.0, 'across-nests' if (x in nest_of and y in nest_of) else 'alone'
-        rec.case(('nest', str(cfg), x, y) if clause == 'within-nest' else None, (x, y, g),
+        rec.case(('nest', str(cfg), x, y, tag) if clause == 'within-nest' else None, (x, y, g),
                  outcome=f'nest:{clause}' + (':' + listing if listing != 'choice-set-order' else ''))
         if cfg.get('sample') and not rec.samples and clause == 'within-nest':
             rec.sample(dict(helper='NestsForNestedLogit.correlation', cfg=cfg, pair=[x, y], value=g, expected=e))
         if not (close(g, e) and close(g2, e)):
-            rec.violation(f'C17|nested-correlation|{clause},names={cfg["names"]}{listing_tag}',
+            rec.violation(f'C17|nested-correlation|{clause},names={cfg["names"]}{listing_tag}{tag}',
                           f'correlation of alternatives {x},{y} (looked up by label {name_of[x]!r},{name_of[y]!r}) = {g} / {g2}; '
                           f'expected {e} for nests {[[labels[j] for j in m_] for m_ in nests_pos]} with mu_m {mu_m}, mu {top}; cfg {cfg}',
                           case_of(pair=[x, y]), expected=e, observed=[g, g2])
